@@ -97,8 +97,10 @@ class Ctx:
         print("[%s %6.1fs]" % (self.prop, time.time() - self.t0), *a, file=sys.stderr, flush=True)
 
     # ------------------------------------------------------------------ cargo
-    def build(self, engine, extra_env=None):
-        """cargo build -p vh-<engine> against the current /repo tree (hooks enabled)."""
+    def build(self, engine, extra_env=None, features=None):
+        """cargo build -p vh-<engine> against the current /repo tree (hooks enabled).
+        features: cargo features of the engine crate; such a variant is built into its own
+        target sub-directory (<target>/<features>) so it does not replace the default binary."""
         env = dict(os.environ)
         env["CARGO_NET_OFFLINE"] = "true"
         env.pop("RUSTFLAGS", None)  # .cargo/config.toml carries --cfg aranya_verif
@@ -106,10 +108,15 @@ class Ctx:
             env.update(extra_env)
         if os.environ.get("VERIF_TARGET_DIR"):
             env["CARGO_TARGET_DIR"] = os.environ["VERIF_TARGET_DIR"]
+        cmd_extra = []
+        if features:
+            base = env.get("CARGO_TARGET_DIR", os.path.join(HARNESS, "target"))
+            env["CARGO_TARGET_DIR"] = os.path.join(base, features.replace(",", "_"))
+            cmd_extra = ["--features", features]
         t = time.time()
         # every engine is its own cargo workspace (harness/engines/<engine>)
         p = subprocess.run(
-            ["cargo", "build", "--offline", "-q"],
+            ["cargo", "build", "--offline", "-q"] + cmd_extra,
             cwd=os.path.join(HARNESS, "engines", engine), env=env, stdout=subprocess.PIPE, stderr=subprocess.STDOUT, text=True)
         if p.returncode != 0:
             sys.stderr.write(p.stdout[-6000:])
